@@ -286,6 +286,7 @@ func (w *Writer) WriteCSM(csm io.ColumnSeriesMap, isVariableLength bool) error {
 		}
 
 		tbi, err := w.rootCatDir.GetLatestTimeBucketInfoFromKey(&tbk)
+		verifhook.At("WriteCSM.lookedUp", tbk.GetItemKey())
 		if err != nil {
 			/*
 				If we can't get the info, we try here to add a new one
